@@ -157,6 +157,7 @@ func GenC09(r *detsim.Rand, tier string) *Plan {
 
 func genCfg(r *detsim.Rand, nClients, estSteps int, pyields bool) simsync.Config {
 	c := simsync.Config{StallTask: -1, PYields: pyields, Pool: simsync.PoolMode(r.Intn(4))}
+	c.PostYields = r.Chance(1, 2)
 	switch r.Weighted([]int{35, 35, 30}) {
 	case 0:
 		c.Policy = simsync.PolicyUniform
